@@ -150,8 +150,10 @@ func (d *Dynamic) Draw(ctx vxfw.DrawContext) (vxfw.Surface, error) {
 			return s, err
 		}
 		// Get the last child so we can set our accumulated height
-		last := s.Children[len(s.Children)-1]
-		ah = last.Origin.Row + int(last.Surface.Size.Height)
+		if len(s.Children) > 0 {
+			last := s.Children[len(s.Children)-1]
+			ah = last.Origin.Row + int(last.Surface.Size.Height)
+		}
 	}
 
 	var colOffset int
